@@ -199,6 +199,13 @@ def run(ck: vlib.Check):
             extra.append({"id": len(extra), "paths": paths, "concat": True, "n_blocks": -1, "pb": None, "subs": None, "max_workers": None, "delay_seed": None,
                           "guard": False, "native_so": None})
             extra_want.append(("path-through-symlinked-directory", [[e for k in want_k for b in files[k][0]["blocks"] for e in b["events"]]], want_k))
+        # (c) a single file given by its name as a string, the name containing characters that are special in patterns; another file sits
+        #     where the pattern reading of the name points
+        (fdir / "run[1]").mkdir(exist_ok=True); (fdir / "run1").mkdir(exist_ok=True)
+        write_file(fdir / "run[1]" / "x.raw", files[0][1]); write_file(fdir / "run1" / "x.raw", files[1][1])
+        extra.append({"id": len(extra), "paths": [], "glob": str(fdir / "run[1]" / "x.raw"), "n_blocks": -1, "pb": None, "subs": None, "max_workers": None,
+                      "delay_seed": None, "guard": False, "native_so": None})
+        extra_want.append(("literal-name-with-pattern-characters", [[e for b in files[0][0]["blocks"] for e in b["events"]]], [0, 1]))
     except OSError as e:
         ck.notes.append(f"symlinked-directory spelling not exercised: {e}")
     ejp = ck.bdir / "jobs_extra.json"
@@ -215,6 +222,8 @@ def run(ck: vlib.Check):
                 k = next((i for i, (a, b) in enumerate(zip(got, want)) if a != b), len(got))
                 what = (f"one path, its file replaced between reads by {len(wants)} well-formed files in turn (new reader each time, one interpreter): read {k} does not "
                         f"return the events of the file then at that path" if kind == "rewritten-path" else
+                        f"concatenate_raw('<dir>/run[1]/x.raw') - an existing well-formed file named by a plain string - does not return that file's events "
+                        f"(another file exists at <dir>/run1/x.raw, which is what the name matches when it is read as a pattern)" if kind.startswith("literal-name") else
                         f"concatenate_raw({[p.replace(str(fdir), '<dir>') for p in c['paths']]}) with <dir>/today -> store/day1: the name denotes <dir>/store/x.raw "
                         f"(that is what open() reads); the events returned are not that file's")
                 ck.violation(f"C04:{kind}:{r['outcome']}", what + f" ({r['outcome']} {r.get('exc', '')})",
@@ -458,7 +467,7 @@ def replay(path):
             def violation(self, key, what, rp): print("still fails on the current working tree:", key, what[:400])
         _Ck.bdir.mkdir(exist_ok=True)
         return glob_part(_Ck(), [(None, w, None) for w in rp["files"]])
-    if rp.get("mode") in ("rewritten-path", "path-through-symlinked-directory"):
+    if rp.get("mode") in ("rewritten-path", "path-through-symlinked-directory", "literal-name-with-pattern-characters"):
         import os, shutil
         d = vlib.BUILD / "C04_replay"; shutil.rmtree(d, ignore_errors=True); (d / "store" / "day1").mkdir(parents=True)
         base = {"n_blocks": -1, "pb": None, "subs": None, "max_workers": None, "delay_seed": None, "guard": False, "native_so": None}
@@ -467,6 +476,9 @@ def replay(path):
             write_file(d / f"own{k}.raw", w); calls.append(dict(base, id=k, paths=[str(d / f"own{k}.raw")]))
         if rp["mode"] == "rewritten-path":
             calls.append(dict(base, id=len(calls), paths=[str(d / "rewritten.raw")], rewrite=rp["files"]))
+        elif rp["mode"] == "literal-name-with-pattern-characters":
+            (d / "run[1]").mkdir(); (d / "run1").mkdir(); write_file(d / "run[1]" / "x.raw", rp["files"][0]); write_file(d / "run1" / "x.raw", rp["files"][1])
+            calls.append(dict(base, id=len(calls), paths=[], glob=str(d / "run[1]" / "x.raw")))
         else:
             os.symlink(os.path.join("store", "day1"), d / "today"); write_file(d / "store" / "x.raw", rp["files"][0])
             write_file(d / "x.raw", rp["files"][-1] if len(rp["files"]) > 1 else rp["files"][0][:0] or rp["files"][0])
